@@ -10,12 +10,14 @@ inductive CoRel (c : ICfg) (ws : List Worker) (r : RunI) : CoOut → Prop where
       CoRel c ws r { ws := (issue c.env ws r.worker).2, r := { r with co := .awaitInit (issue c.env ws r.worker).1 } }
   | initOk (h : r.co = .awaitInit .ok) :
       CoRel c ws r { ws := (issue c.env ws r.worker).2, r := { r with co := .awaitNext (issue c.env ws r.worker).1 0 } }
-  | raiseT (h : r.co.notDone) : CoRel c ws r { ws := ws, r := { r with co := .raisedTimeout } }
-  | raiseE (h : r.co.notDone) : CoRel c ws r { ws := ws, r := { r with co := .raisedErr } }
-  | batches (f : Fate) (pos k : Nat) (h : r.co = .awaitNext .ok pos) (hk : pos + k ≤ c.nb r.shard) :
+  | raiseT (h : r.co = .awaitInit .deadline ∨ ∃ pos, r.co = .awaitNext .deadline pos) :
+      CoRel c ws r { ws := ws, r := { r with co := .raisedTimeout } }
+  | raiseE (h : r.co = .awaitInit .appError ∨ ∃ pos, r.co = .awaitNext .appError pos) :
+      CoRel c ws r { ws := ws, r := { r with co := .raisedErr } }
+  | batches (pos k : Nat) (h : r.co = .awaitNext .ok pos) (hk : pos + k ≤ c.nb r.shard) :
       CoRel c ws r { ws := (issue c.env ws r.worker).2,
                      batches := (List.range' pos k).map fun b => (r.shard, b),
-                     r := { r with co := .awaitNext f (pos + k) } }
+                     r := { r with co := .awaitNext (issue c.env ws r.worker).1 (pos + k) } }
   | marker (pos k : Nat) (h : r.co = .awaitNext .ok pos) (hk : pos + k = c.nb r.shard) :
       CoRel c ws r { ws := ws, batches := (List.range' pos k).map fun b => (r.shard, b),
                      r := { r with co := .putDone, hasState := !c.directPut },
@@ -30,8 +32,8 @@ theorem coStep_sound {c : ICfg} {ws : List Worker} {r : RunI} {k : Nat} {m : Boo
   | awaitInit f =>
     cases f <;> simp [hco] at h
     · subst h; exact .initOk hco
-    · subst h; exact .raiseT (by simp [CoSt.notDone, hco])
-    · subst h; exact .raiseE (by simp [CoSt.notDone, hco])
+    · subst h; exact .raiseT (Or.inl hco)
+    · subst h; exact .raiseE (Or.inl hco)
   | awaitNext f pos =>
     cases f <;> simp [hco] at h
     · obtain ⟨hc, h⟩ := h
@@ -39,9 +41,9 @@ theorem coStep_sound {c : ICfg} {ws : List Worker} {r : RunI} {k : Nat} {m : Boo
       · simp [hm] at h hc; subst h
         exact .marker pos k hco (by omega)
       · simp [hm] at h hc; subst h
-        exact .batches _ pos k hco (by omega)
-    · subst h; exact .raiseT (by simp [CoSt.notDone, hco])
-    · subst h; exact .raiseE (by simp [CoSt.notDone, hco])
+        exact .batches pos k hco (by omega)
+    · subst h; exact .raiseT (Or.inr ⟨pos, hco⟩)
+    · subst h; exact .raiseE (Or.inr ⟨pos, hco⟩)
   | putDone => simp [hco] at h; subst h; exact .fin hco
   | finished => simp [hco] at h
   | raisedTimeout => simp [hco] at h
@@ -78,7 +80,7 @@ theorem it_draw_facts (s : IT) :
     s.draw.outcome = s.outcome ∧ s.draw.running = s.running ∧ s.draw.failed = s.failed ∧
     s.draw.timeoutCnt = s.timeoutCnt ∧ s.draw.finished = s.finished ∧ s.draw.statesQ = s.statesQ ∧
     s.draw.merged = s.merged ∧ s.draw.result = s.result ∧ s.draw.yieldedB = s.yieldedB ∧
-    s.draw.outQ = s.outQ ∧ s.draw.ws = s.ws := by
+    s.draw.outQ = s.outQ ∧ s.draw.ws = s.ws ∧ s.draw.zombies = s.zombies := by
   unfold IT.draw
   by_cases hc : (s.tasks.isEmpty && !s.exhausted) = true
   · rw [if_pos hc]
@@ -102,7 +104,7 @@ theorem iinvB_step {c : ICfg} {s s' : IT} (h : IInvB c s) (hs : IStep c s s') : 
     have hnb : ¬ c.threshold < s.timeoutCnt := by
       intro hlt; simp [IT.broken, hlt] at hb
     exact ⟨h1.trans h.cons, h3 h.exh, by simp [h4, ho], by rw [h7]; intro hlt; exact absurd hlt hnb⟩
-  | submitSome w t rest ho hb hfree hd =>
+  | submitSome w t rest ho hb halive hfree hd =>
     obtain ⟨h1, _, h3, h4, h5, _, h7, _⟩ := it_draw_facts s
     have hnb : ¬ c.threshold < s.timeoutCnt := by
       intro hlt; simp [IT.broken, hlt] at hb
@@ -182,7 +184,7 @@ theorem CoRel.hasState {c : ICfg} {ws : List Worker} {r : RunI} {o : CoOut} (h :
   | initOk h => simp
   | raiseT h => simp
   | raiseE h => simp
-  | batches f pos k h hk => simp
+  | batches pos k h hk => simp
   | marker pos k h hk => simp [hfix]
   | fin h => intro _; exact hr (Or.inl h)
 
@@ -195,7 +197,7 @@ theorem iinvS_step {c : ICfg} {s s' : IT} (hfix : c.directPut = false) (h : IInv
     obtain ⟨_, _, _, h4, h5, _, _, h8, h9, h10, h11, _⟩ := it_draw_facts s
     exact ⟨by rw [h10, h9, h8]; exact h.st, by rw [h5]; exact h.hasSt, by rw [h4, h9, h11]; exact h.run,
       by rw [h4, h9, h11]; exact h.stop, by rw [h11, h8, h10]; exact h.res⟩
-  | submitSome w t rest ho hb hfree hd =>
+  | submitSome w t rest ho hb halive hfree hd =>
     obtain ⟨_, _, _, h4, h5, _, _, h8, h9, h10, h11, _⟩ := it_draw_facts s
     refine ⟨by simp only [h10, h9, h8]; exact h.st, ?_, by simp only [h4, h9, h11]; exact h.run,
       by simp only [h4, h9, h11]; exact h.stop, by simp only [h11, h8, h10]; exact h.res⟩
@@ -297,7 +299,7 @@ theorem CoRel.batOK {c : ICfg} {ws : List Worker} {r : RunI} {o : CoOut} (h : Co
   | initOk h => exact ⟨by simp, by simp⟩
   | raiseT h => exact ⟨by simp, by simp⟩
   | raiseE h => exact ⟨by simp, by simp⟩
-  | batches f pos k h hk =>
+  | batches pos k h hk =>
     refine ⟨?_, by simp⟩
     intro f' pos' hc b hlt
     simp at hc
@@ -329,7 +331,7 @@ theorem iinvO_step {c : ICfg} {s s' : IT} (h : IInvO c s) (hs : IStep c s s') : 
     obtain ⟨_, _, _, h4, h5, _, _, h8, _, _, _, h12, h13, _⟩ := it_draw_facts s
     exact ⟨by rw [h5, h12, h13]; exact h.bat, by rw [h8, h12, h13]; exact h.fin,
       by rw [h4, h8, h12]; exact h.finOut⟩
-  | submitSome w t rest ho hb hfree hd =>
+  | submitSome w t rest ho hb halive hfree hd =>
     obtain ⟨_, _, _, h4, h5, _, _, h8, _, _, _, h12, h13, _⟩ := it_draw_facts s
     refine ⟨?_, by simp only [h8, h12, h13]; exact h.fin, by simp only [h4, h8, h12]; exact h.finOut⟩
     intro r hr
@@ -434,16 +436,16 @@ theorem CoRel.noAcq {c : ICfg} {ws : List Worker} {r : RunI} {o : CoOut} (h : Co
   | initOk h => exact issue_noAcq c.env _ hws
   | raiseT h => exact hws
   | raiseE h => exact hws
-  | batches f pos k h hk => exact issue_noAcq c.env _ hws
+  | batches pos k h hk => exact issue_noAcq c.env _ hws
   | marker pos k h hk => exact hws
   | fin h => exact hws
 
 theorem noAcq_step {c : ICfg} {s s' : IT} (h : ∀ x ∈ s.ws, x.acquired = false) (hs : IStep c s s') :
     ∀ x ∈ s'.ws, x.acquired = false := by
-  have hd : s.draw.ws = s.ws := (it_draw_facts s).2.2.2.2.2.2.2.2.2.2.2.2.2
+  have hd : s.draw.ws = s.ws := (it_draw_facts s).2.2.2.2.2.2.2.2.2.2.2.2.2.1
   cases hs with
   | submitNone w ho hb hd' => rw [hd]; exact h
-  | submitSome w t rest ho hb hfree hd' => simp only [hd]; exact h
+  | submitSome w t rest ho hb halive hfree hd' => simp only [hd]; exact h
   | co i k m r o hr hco => exact (coStep_sound hco).noAcq h
   | zco i k m r o hr hco => exact (coStep_sound hco).noAcq h
   | drain b q ho hq => exact h
